@@ -254,6 +254,9 @@ class workq:
 
         alternatives = []
         for watching, ev in self._waiters:
+            if ev.ready():
+                # already served by an earlier push; it just has not woken up yet
+                continue
             if channel in watching or not watching:
                 alternatives.append(ev)
 
